@@ -11,3 +11,75 @@ package http
 //@   requires resp != nil
 //@   ensures* table: result == httpTable(resp.Name, resp.Fault, resp.Timeout, resp.Temporary)
 //@   modifies nothing
+
+// ---- content negotiation (C15) ------------------------------------------------
+
+// wire formats: 0 json, 1 xml, 2 gob, 3 text
+//@ smt (define-fun wireFormat ((mt String)) Int (ite (or (= mt "application/json") (str.suffixof "+json" mt)) 0 (ite (or (= mt "application/xml") (str.suffixof "+xml" mt)) 1 (ite (or (= mt "application/gob") (str.suffixof "+gob" mt)) 2 (ite (or (= mt "text/html") (= mt "text/plain") (str.suffixof "+html" mt) (str.suffixof "+txt" mt)) 3 0)))))
+//@ smt (define-fun normMT ((h String)) String (ite (pmtOk h) (pmt h) h))
+//@ macro encFmt(x) = ite(typeIs(x, *json.Encoder), 0, ite(typeIs(x, *xml.Encoder), 1, ite(typeIs(x, *gob.Encoder), 2, ite(typeIs(x, *textEncoder), 3, 0 - 1))))
+//@ macro decFmt(x) = ite(typeIs(x, *json.Decoder), 0, ite(typeIs(x, *xml.Decoder), 1, ite(typeIs(x, *gob.Decoder), 2, ite(typeIs(x, *textDecoder), 3, ite(typeIs(x, *unsupportedDecoder), 4, 0 - 1)))))
+//@ macro ctOf(h) = select(select(HdrVal, h), canonKey("Content-Type"))
+
+//@ func SetContentType
+//@   property C15
+//@   let h = rwHeader(w)
+//@   let h0 = old(ctOf(h))
+//@   requires w != nil
+//@   ensures unset: h0 == "" ==> ctOf(h) == ct
+//@   ensures other: h0 != "" && ct != "application/json" && ct != "application/xml" ==> ctOf(h) == ct
+//@   ensures kept: h0 != "" && (ct == "application/json" || ct == "application/xml") && contains(h0, "+") ==> ctOf(h) == h0
+//@   ensures suffixed: h0 != "" && (ct == "application/json" || ct == "application/xml") && !contains(h0, "+") ==> ctOf(h) == h0 + ite(ct == "application/xml", "+xml", "+json")
+//@   modifies HdrVal[rwHeader(w)]
+
+//@ func ResponseDecoder
+//@   property C15
+//@   requires resp != nil
+//@   let ct0 = old(ctOf(resp.Header))
+//@   ensures* nonnil: result != nil
+//@   ensures* format: decFmt(result) == ite(ct0 == "", 0, wireFormat(normMT(ct0)))
+//@   modifies nothing
+
+//@ func RequestDecoder
+//@   property C15
+//@   requires r != nil
+//@   let ct0 = old(ctOf(r.Header))
+//@   ensures* nonnil: result != nil
+//@   ensures* default: ct0 == "" ==> decFmt(result) == 0
+//@   ensures* json: ct0 != "" && normMT(ct0) == "application/json" ==> decFmt(result) == 0
+//@   ensures* xml: ct0 != "" && normMT(ct0) == "application/xml" ==> decFmt(result) == 1
+//@   ensures* gob: ct0 != "" && normMT(ct0) == "application/gob" ==> decFmt(result) == 2
+//@   ensures* text: ct0 != "" && (normMT(ct0) == "text/html" || normMT(ct0) == "text/plain") ==> decFmt(result) == 3
+//@   ensures* unsupported: ct0 != "" && normMT(ct0) != "application/json" && normMT(ct0) != "application/xml" && normMT(ct0) != "application/gob" && normMT(ct0) != "text/html" && normMT(ct0) != "text/plain" ==> decFmt(result) == 4 && result.(*unsupportedDecoder).ct == normMT(ct0)
+//@   modifies nothing
+
+//@ func ResponseEncoder
+//@   property C15
+//@   requires w != nil && ctx != nil
+//@   let h = rwHeader(w)
+//@   let h0 = old(ctOf(h))
+//@   let acc = ctxVal(ctx, iface(contextKey, 1))
+//@   let ctv = ctxVal(ctx, iface(contextKey, 2))
+//@   let accept = ite(acc == nil, "", unboxStr(acc.val))
+//@   let ct = ite(ctv == nil, "", unboxStr(ctv.val))
+//@   requires acc == nil || typeIs(acc, string)
+//@   requires ctv == nil || typeIs(ctv, string)
+//@   ensures* nonnil: result != nil
+//@   ensures* agree.fresh: h0 == "" ==> encFmt(result) == wireFormat(normMT(ctOf(h)))
+//@   ensures* agree.preset.simple: h0 != "" && !contains(h0, "+") && !contains(h0, ";") ==> encFmt(result) == wireFormat(normMT(ctOf(h)))
+//@   ensures* agree.preset.structured: h0 != "" && (contains(h0, "+") || contains(h0, ";")) ==> encFmt(result) == wireFormat(normMT(ctOf(h)))
+//@   ensures* fallback: h0 == "" && ct == "" && wireFormat(normMT(accept)) == 0 ==> encFmt(result) == 0
+//@   modifies HdrVal[rwHeader(w)]
+
+//@ func RequestEncoder
+//@   property C15
+//@   requires r != nil
+//@   let ct0 = old(ctOf(r.Header))
+//@   ensures* json: typeIs(result, *json.Encoder) && result != nil
+//@   ensures* header: ct0 == "" ==> ctOf(r.Header) == "application/json"
+//@   ensures* kept: ct0 != "" ==> ctOf(r.Header) == ct0
+
+//@ func (*unsupportedDecoder).Decode
+//@   property C15
+//@   requires e != nil
+//@   ensures* err: result != nil && asSE(result) != 0 && ptr(*goa.ServiceError, asSE(result)).Name == "unsupported_media_type"
